@@ -513,6 +513,30 @@ class Executor(ExprMixin):
                     return [(s, z3.If(V.bval(r), b, a))]
                 return self.seq(self.p_order(st, opn, b, a), k)
             return self.fold_minmax(st, name, args[0])
+        if name == 'sorted' and len(args) == 1 and is_term(args[0]) and set(kwargs) <= {'reverse'}:
+            # sorted(dictionary of integer keys[, reverse=...]): the keys in strictly increasing / decreasing order
+            d = args[0]
+            rev = kwargs.get('reverse')
+            if rev is not None and not (is_term(rev) and z3.is_true(z3.simplify(V.bval(rev))) or
+                                        is_term(rev) and z3.is_false(z3.simplify(V.bval(rev)))):
+                raise NotFormed('sorted(..., reverse=<not a constant>)')
+            down = rev is not None and z3.is_true(z3.simplify(V.bval(rev)))
+
+            def srt(s):
+                L = V.List(fresh('lid', T.I))
+                i, j, kk = fresh('i', T.I), fresh('j', T.I), fresh('k')
+                pos = lambda key: T.sorted_pos(L, key)
+                return [(s.add(ln(L) == T.dcount(d), ln(L) >= 0,
+                               z3.ForAll([i], z3.Implies(z3.And(0 <= i, i < ln(L)), z3.And(T.dhas(d, at(L, i)), is_('Int', at(L, i)))),
+                                         patterns=[at(L, i)]),
+                               z3.ForAll([kk], z3.Implies(T.dhas(d, kk), z3.And(0 <= pos(kk), pos(kk) < ln(L), at(L, pos(kk)) == kk)),
+                                         patterns=[T.dhas(d, kk)]),
+                               z3.ForAll([i, j], z3.Implies(z3.And(0 <= i, i < j, j < ln(L)),
+                                                            (V.ival(at(L, i)) > V.ival(at(L, j))) if down else
+                                                            (V.ival(at(L, i)) < V.ival(at(L, j)))),
+                                         patterns=[z3.MultiPattern(at(L, i), at(L, j))])), L)]
+            return self.cases(st, [(is_('Dict', d), srt),
+                                   (z3.Not(is_('Dict', d)), lambda s: self._not_modelled(s, 'sorted() of a non-dict'))])
         if name == 'sum':
             return self.fold_sum(st, args[0])
         if name in ('any', 'all'):
@@ -1058,6 +1082,10 @@ class Executor(ExprMixin):
                     s2 = s2.add(z3.ForAll([kk], T.dhas(D, kk) == z3.Or(T.dhas(cont, kk), kk == idx), patterns=[T.dhas(D, kk)]),
                                 z3.ForAll([kk], T.dget(D, kk) == z3.If(kk == idx, v, T.dget(cont, kk)), patterns=[T.dget(D, kk)]),
                                 T.dcount(D) >= T.dcount(cont), T.dcount(D) <= T.dcount(cont) + 1, T.dcount(D) >= 1)
+                    for lem in getattr(self.reg, 'dict_lemmas', ()):
+                        # instances of the defining equations of spec functions over dictionaries (registered by the contract
+                        # module, like append_lemmas for lists): f(d with key := v) in terms of f(d)
+                        s2 = s2.add(*lem('store', D, cont, idx))
                     return self.assign_to(target.value, D, s2)
                 return self.cases_flow(s, [(is_('List', cont), list_store), (is_('Dict', cont), dict_store),
                                            (z3.Not(z3.Or(is_('List', cont), is_('Dict', cont))),
@@ -1121,6 +1149,41 @@ class Executor(ExprMixin):
         return out
 
     def s_Assign(self, n, st):
+        v0 = n.value
+        if isinstance(v0, ast.Call) and isinstance(v0.func, ast.Attribute) and v0.func.attr == 'pop' and \
+                isinstance(v0.func.value, ast.Name) and len(v0.args) == 1 and not v0.keywords:
+            # x = d.pop(key): the value under the key, the dictionary without the key (KeyError when absent)
+            def kp(s, vals):
+                cur, key = self.need_term(vals[0]), self.need_term(vals[1])
+
+                def ok(s2):
+                    D = V.Dict(fresh('did', T.I))
+                    kk = fresh('k')
+                    s2 = s2.add(z3.ForAll([kk], T.dhas(D, kk) == z3.And(T.dhas(cur, kk), kk != key), patterns=[T.dhas(D, kk)]),
+                                z3.ForAll([kk], z3.Implies(kk != key, T.dget(D, kk) == T.dget(cur, kk)), patterns=[T.dget(D, kk)]),
+                                T.dcount(D) == T.dcount(cur) - 1, T.dcount(D) >= 0)
+                    for lem in getattr(self.reg, 'dict_lemmas', ()):
+                        s2 = s2.add(*lem('pop', D, cur, key))
+                    out = []
+                    for fl in self.assign_to(v0.func.value, D, s2):
+                        if fl.kind != 'fall':
+                            out.append(fl)
+                            continue
+                        flows = [fl]
+                        for t in n.targets:
+                            nxt = []
+                            for f2 in flows:
+                                nxt.extend(self.assign_to(t, T.dget(cur, key), f2.st) if f2.kind == 'fall' else [f2])
+                            flows = nxt
+                        out.extend(flows)
+                    return out
+                if not isinstance(cur, z3.ExprRef):
+                    raise NotFormed('pop on a static value')
+                return self.cases_flow(s, [(z3.And(is_('Dict', cur), T.dhas(cur, key)), ok),
+                                           (z3.And(is_('Dict', cur), z3.Not(T.dhas(cur, key))), lambda s2: [Flow('exc', s2, 'KeyError')]),
+                                           (z3.Not(is_('Dict', cur)), lambda s2: self._not_modelled(s2, 'pop on a non-dict'))])
+            return self.lift(self.ev_list([v0.func.value, v0.args[0]], st), kp)
+
         def k(s, v):
             flows = [Flow('fall', s)]
             for t in n.targets:
@@ -1477,6 +1540,7 @@ class Executor(ExprMixin):
         st = st.add(z3.Or(is_('List', src), is_('Tuple', src)), ln(src) >= 0)
         if not feasible(st):
             return alt
+        st = st.setenv(f'seq{lid}', src)            # ghost name: the sequence a for loop iterates over (for its invariants)
         return alt + self.for_index(n, st, lid, invs, z3.IntVal(0), ln(src),
                                     lambda s2, k: (s2, mk(k, at(src, k))), n.target)
 
